@@ -20,6 +20,7 @@ EXPLANATION = (
     "the same path is opened, the rename target carries a stamp taken from the clock at rotation time, and an existing "
     "target is never overwritten. Writers whose third-party dependency is not installed are analysed and reported as info. "
     "NOT decided: counts for all N mod limit, byte-wise concatenation of parts, non-monotonic timestamp histories."
+    " Also decided (rules added after the fifth blind round): (R17.4) the archiver instantiates its path template with the record's own _generated value (current time only when it has none) and the record itself."
 )
 RULE_SUMMARY = "instances: (writer, flush effect) pairs, release sites, __exit__/__del__ definitions, split/rotation statements"
 
